@@ -1,7 +1,7 @@
 (* FrameTheorems.v — for flat rule sets (Frame.v) the hypotheses of the refinement theorems are
    theorems: C01, C02, C04, C07, C08, C14 hold for them with no semantic assumption on the rules. *)
 From Coq Require Import Permutation.
-From Grule Require Import Base Values Syntax EngineAbs Facts Eval Fresh Engine MemoProofs Refinement RefineTheorems MemoTheorems Frame.
+From Grule Require Import Base Values Syntax EngineAbs Facts Eval Fresh Engine Methods MemoProofs Refinement RefineTheorems MemoTheorems Frame.
 Open Scope Z_scope.
 
 Section FT.
@@ -9,6 +9,21 @@ Variable meth : list (string * fval) -> string -> list val -> res (option val * 
 Variable panics_inside : string -> list val -> bool.
 Variable mutating : string -> bool.
 Hypothesis meth_pure : forall fs f args ret fs', mutating f = false -> meth fs f args = Ok (ret, fs') -> fs' = fs.
+(* the fact methods admitted in flat rule sets: side-effect free, independent of the receiver's state, not the built-in Len *)
+Variable okmeth : string -> bool.
+Hypothesis ok_pure : forall f, okmeth f = true -> mutating f = false.
+Hypothesis ok_stateless : forall f, okmeth f = true -> forall fs fs' args,
+  match meth fs f args, meth fs' f args with
+  | Ok (r, _), Ok (r', _) => r = r'
+  | Err, Err => True
+  | Panic, Panic => True
+  | _, _ => False
+  end.
+Hypothesis ok_not_len : forall f, okmeth f = true -> f <> "Len"%string.
+Notation flat_expr := (flat_expr okmeth).
+Notation flat_atom := (flat_atom okmeth).
+Notation flat_elist := (flat_elist okmeth).
+Notation flat_rules := (flat_rules okmeth).
 
 Lemma flat_var_pure : forall x, flat_var x = true -> pure_var mutating x = true.
 Proof.
@@ -21,11 +36,13 @@ Qed.
 
 Lemma flat_pure :
   (forall e, flat_expr e = true -> pure_expr mutating e = true) /\
-  (forall a, flat_atom a = true -> pure_atom mutating a = true).
+  (forall a, flat_atom a = true -> pure_atom mutating a = true) /\
+  (forall l, flat_elist l = true -> pure_elist mutating l = true).
 Proof.
   enough (H: (forall e, flat_expr e = true -> pure_expr mutating e = true) /\
              (forall a, flat_atom a = true -> pure_atom mutating a = true) /\
-             (forall x : var, True) /\ (forall l : elist, True)) by (destruct H as (A & B & _); auto).
+             (forall x : var, True) /\ (forall l, flat_elist l = true -> pure_elist mutating l = true))
+    by (destruct H as (A & B & _ & C); auto).
   apply syntax_mutind; try (intros; exact I).
   - intros a IH H. change (pure_atom mutating a = true). apply IH. exact H.
   - intros n e IH H. change (pure_expr mutating e = true). apply IH. exact H.
@@ -34,27 +51,28 @@ Proof.
   - intros c H. reflexivity.
   - intros x _ H. simpl in H. change (pure_var mutating x = true). apply flat_var_pure. exact H.
   - intros f l _ H. discriminate.
-  - intros a _ f l _ H. discriminate.
+  - intros a IHa f l IHl H. simpl in H.
+    destruct a as [c0|r|f0 l0|a0 f0 l0|a0 n0|a0 e0|a0]; try discriminate.
+    apply andb_prop in H. destruct H as [H Hl]. apply andb_prop in H. destruct H as [Hr Hok].
+    change (negb (mutating f) && pure_atom mutating (AVar r) && pure_elist mutating l = true).
+    rewrite (ok_pure f Hok), (IHa Hr), (IHl Hl). reflexivity.
   - intros a _ n H. discriminate.
   - intros a _ e _ H. discriminate.
   - intros a IH H. change (pure_atom mutating a = true). apply IH. exact H.
-Qed.
-
-Lemma flat_elist_pure : forall l, flat_elist l = true -> pure_elist mutating l = true.
-Proof.
-  induction l as [|e l IH]; intros H; [reflexivity|]. simpl in H. apply andb_prop in H. destruct H as [A B].
-  destruct flat_pure as [Pe _]. change (pure_expr mutating e && pure_elist mutating l = true). rewrite (Pe e A), (IH B). reflexivity.
+  - intros H. reflexivity.
+  - intros e IHe l IHl H. simpl in H. apply andb_prop in H. destruct H as [A B].
+    change (pure_expr mutating e && pure_elist mutating l = true). rewrite (IHe A), (IHl B). reflexivity.
 Qed.
 
 Lemma flat_rules_ok : forall rules, flat_rules rules = true -> rules_ok rules mutating.
 Proof.
   intros rules Hf r Hr. unfold flat_rules in Hf. rewrite forallb_forall in Hf. specialize (Hf r Hr).
-  unfold flat_rule in Hf. apply andb_prop in Hf. destruct Hf as [Hw Ht]. destruct flat_pure as [Pe Pa].
+  unfold flat_rule in Hf. apply andb_prop in Hf. destruct Hf as [Hw Ht]. destruct flat_pure as (Pe & Pa & Pl).
   split; [apply Pe; exact Hw|].
   apply Forall_forall. intros st Hst. rewrite forallb_forall in Ht. specialize (Ht st Hst).
   destruct st as [x o e|a]; simpl in *.
   - apply andb_prop in Ht. destruct Ht as [A B]. split; [apply flat_var_pure; exact A|apply Pe; exact B].
-  - destruct a; try discriminate. apply flat_elist_pure. exact Ht.
+  - destruct a; try discriminate. apply Pl. exact Ht.
 Qed.
 
 Variable rules : list rule.
@@ -67,7 +85,7 @@ Variable order : nat -> list entry -> list entry.
 Hypothesis order_perm : forall i l, Permutation (order i l) l.
 
 Let Hok := flat_rules_ok rules Hflat.
-Let Hdep := flat_dependency_hypothesis rules meth mutating Hflat.
+Let Hdep := flat_dependency_hypothesis rules meth mutating okmeth ok_stateless ok_not_len Hflat.
 
 Theorem C01_flat : C01_statement rules meth panics_inside es c order.
 Proof. exact (C01_proved rules meth panics_inside mutating meth_pure Hok Hdep es keys_nodup c max_nonneg order order_perm). Qed.
@@ -87,8 +105,10 @@ End FT.
 Definition fv (r f : string) : var := VMember (VName r) f.
 Definition flat_example : list rule :=
   [{| rname := "Count"%string; rdesc := ""%string; rsal := 0;
-      rwhen := EBin OAnd (EBin OLT (EAtom (AVar (fv "F" "I"))) (EAtom (AConst (CInt 3))))
-                         (EParen true (EBin OEq (EAtom (AVar (fv "F" "S"))) (EAtom (AConst (CStr "stop")))));
+      rwhen := EBin OAnd (EBin OAnd (EBin OLT (EAtom (AVar (fv "F" "I"))) (EAtom (AConst (CInt 3))))
+                                    (EParen true (EBin OEq (EAtom (AVar (fv "F" "S"))) (EAtom (AConst (CStr "stop"))))))
+                         (EBin OLT (EAtom (AMethod (AVar (VName "F")) "Sum" (ECons (EAtom (AVar (fv "F" "I"))) (ECons (EAtom (AConst (CInt 1))) ENil))))
+                                   (EAtom (AConst (CInt 9))));
       rthen := [SAssign (fv "F" "I") AsAdd (EAtom (AConst (CInt 1)));
                 SAssign (VSel (fv "F" "Arr") (EAtom (AConst (CInt 1)))) AsSet (EBin OAdd (EAtom (AVar (VSel (fv "F" "Arr") (EAtom (AConst (CInt 0)))))) (EAtom (AVar (fv "F" "I"))))] |};
    {| rname := "Mark"%string; rdesc := ""%string; rsal := 5;
@@ -98,8 +118,39 @@ Definition flat_example : list rule :=
    {| rname := "Done"%string; rdesc := ""%string; rsal := -1;
       rwhen := EBin OOr (EAtom (ANeg (AVar (fv "G" "Open")))) (EBin OGT (EAtom (AVar (VName "N"))) (EAtom (AConst (CInt 5))));
       rthen := [SAtom (AFunc "Complete" ENil)] |}].
-Example flat_example_is_flat : flat_rules flat_example = true.
+(* the methods of the fact library (Methods.v) that do not look at their receiver, and the string built-ins *)
+Definition ex_okmeth (f : string) : bool :=
+  String.eqb f "Sum" || String.eqb f "Concat" || String.eqb f "IsPos" || String.eqb f "ToUpper" || String.eqb f "ToLower".
+Example flat_example_is_flat : flat_rules ex_okmeth flat_example = true.
 Proof. reflexivity. Qed.
+
+Lemma ex_okmeth_cases : forall f, ex_okmeth f = true ->
+  f = "Sum"%string \/ f = "Concat"%string \/ f = "IsPos"%string \/ f = "ToUpper"%string \/ f = "ToLower"%string.
+Proof.
+  intros f H. unfold ex_okmeth in H. repeat (apply orb_prop in H; destruct H as [H|H]);
+    apply String.eqb_eq in H; auto 10.
+Qed.
+Lemma ex_ok_not_len : forall f, ex_okmeth f = true -> f <> "Len"%string.
+Proof. intros f H E. subst. discriminate. Qed.
+Definition ex_mutating (f : string) : bool := String.eqb f "Inc" || String.eqb f "AddTo".
+Lemma ex_ok_pure : forall f, ex_okmeth f = true -> ex_mutating f = false.
+Proof. intros f H. destruct (ex_okmeth_cases f H) as [->|[->|[->|[->| ->]]]]; reflexivity. Qed.
+Lemma ex_ok_stateless : forall f, ex_okmeth f = true -> forall fs fs' args,
+  match Methods.fact_meth fs f args, Methods.fact_meth fs' f args with
+  | Ok (r, _), Ok (r', _) => r = r'
+  | Err, Err => True
+  | Panic, Panic => True
+  | _, _ => False
+  end.
+Proof.
+  intros f H fs fs' args. destruct (ex_okmeth_cases f H) as [->|[->|[->|[->| ->]]]]; unfold Methods.fact_meth.
+  - destruct args as [|[k1 a1|k1 a1|k1 a1|s1|b1|t1| |p1|i1|ok1 ot1] [|[k2 a2|k2 a2|k2 a2|s2|b2|t2| |p2|i2|ok2 ot2] [|a3 rest]]]; try exact I;
+      try (destruct k1; exact I); try (destruct k1; destruct k2; try exact I; reflexivity).
+  - destruct (forallb _ args); [reflexivity|exact I].
+  - destruct args as [|[k1 a1|k1 a1|k1 a1|s1|b1|t1| |p1|i1|ok1 ot1] [|a2 rest]]; try exact I; destruct k1; try exact I; reflexivity.
+  - exact I.
+  - exact I.
+Qed.
 
 (* … and it does something: on these facts the engine model runs five cycles, fires Count, Count, Mark, Count
    and ends at quiescence with F.I = 3 and F.S = "go!" *)
